@@ -53,3 +53,8 @@ add("C20", "exploration",
     "Trusted: ref.ParseText, the expected-tree builders in harness/mirror (field names/order transcribed from aircraft.capnp). Only the aircraftlib schemas are exercised; spelling of inf/nan is not constrained.",
     "property-based round-trip through an independent parser + metamorphic history independence (rapid)",
     "DESIGN.md section 4, C20")
+add("C19", "exploration",
+    "Generated Go values of mirror types for aircraftlib (every Z union member, nested lists, groups, nil pointers, renamed/omitted/embedded fields up to three levels, Text as []byte, Defaults) are inserted and extracted: Extract(Insert(v)) equals v modulo nil/empty, the generated accessors show exactly the inserted values, Insert changes only the discriminant and the active member's bit range (taken from the schema node) in a pre-filled struct, Extract leaves inactive Go fields untouched; messages re-encoded independently in other layouts and newer/older struct sizes, with re-pointed discriminants, must extract to exactly what the generated accessors return.",
+    "Trusted: harness/mirror types (follow pogs/doc.go), mirror.FromGenerated (generated accessors as reference), ref encoder. Only aircraftlib schemas; capability-typed members are excluded from the agreement check.",
+    "property-based round-trip + differential against generated accessors (rapid), recorded-tape replay of Go values",
+    "DESIGN.md section 4, C19")
